@@ -334,6 +334,79 @@ def check_solver_cache(ctx, case):
         ctx.disagree(f"solver cache keys {got} differ from the model {model}", case_json(case))
 
 
+
+# ------------------------------------------------------------------------------------------
+# the public entry points: ray_tracing_for_paths / ray_tracing write Path.rays
+# ------------------------------------------------------------------------------------------
+def gen_path_group(rng):
+    """a list of arim.Path objects over shared point sets: distinct paths, the same Path object listed twice, and
+    distinct Path objects that describe the same ray-tracing problem (equal FermatPath)"""
+    import arim
+    import arim.geometry as g
+
+    couplant = arim.Material(float(rng.uniform(1200, 1700)), density=1000.0, state_of_matter="liquid")
+    block = arim.Material(float(rng.uniform(5500, 6500)), float(rng.uniform(2800, 3300)), density=2700.0, state_of_matter="solid")
+    nsets = int(rng.integers(3, 6))
+    ifaces = []
+    for k in range(nsets):
+        n = int(rng.choice([1, 2, 3, 5]))
+        pts = rng.normal(size=(n, 3)) * 1e-2
+        pts[:, 1] = 0.0
+        P = g.Points(pts, f"S{k}")
+        ifaces.append(arim.Interface(P, g.default_orientations(P)))
+
+    def one_path(name):
+        nlegs = int(rng.integers(1, 4))
+        ids = [int(rng.integers(0, nsets)) for _ in range(nlegs + 1)]
+        mats = [couplant if (k == 0 and rng.random() < 0.5) else block for k in range(nlegs)]
+        modes = ["L" if m is couplant else str(rng.choice(["L", "T"])) for m in mats]
+        return arim.Path(tuple(ifaces[i] for i in ids), tuple(mats), tuple(modes), name=name)
+
+    paths = [one_path(f"P{k}") for k in range(int(rng.integers(1, 5)))]
+    kind = int(rng.integers(0, 4))
+    if kind == 1:      # the same object twice
+        k = int(rng.integers(0, len(paths)))
+        paths.insert(int(rng.integers(0, len(paths) + 1)), paths[k])
+    elif kind == 2:    # an equal problem under another Path object
+        k = int(rng.integers(0, len(paths)))
+        q = paths[k]
+        paths.insert(int(rng.integers(0, len(paths) + 1)), arim.Path(q.interfaces, q.materials, q.modes, name=q.name + "bis"))
+    elif kind == 3 and len(paths) > 1:   # a permutation of the list
+        paths = [paths[i] for i in rng.permutation(len(paths))]
+    return paths, kind
+
+
+def check_path_api(ctx, paths, kind, fortran, via_views):
+    import arim
+    from arim import ray
+
+    for p_ in paths:
+        p_.rays = None
+    if via_views:
+        views = [arim.View(p_, paths[(k + 1) % len(paths)], f"v{k}") for k, p_ in enumerate(paths)]
+        ray.ray_tracing(views, convert_to_fortran_order=fortran)
+    else:
+        ray.ray_tracing_for_paths(list(paths), convert_to_fortran_order=fortran)
+    out = []
+    for k, p_ in enumerate(paths):
+        fp = ray.FermatPath.from_path(p_)
+        solo = ray.FermatSolver((fp,)).solve()[fp]
+        r = p_.rays
+        if r is None:
+            out.append(("violate", f"path {k} of {len(paths)} (group kind {kind}): no rays were attached by ray tracing"))
+            continue
+        if r.times.shape != solo.times.shape or not np.array_equal(r.times, solo.times) \
+                or r.indices.shape != solo.indices.shape or not np.array_equal(r.indices, solo.indices):
+            out.append(("violate", f"path {k} of {len(paths)} (group kind {kind}, fortran={fortran}, via_views={via_views}): "
+                                   "rays attached by ray tracing differ from solving the path alone"))
+            continue
+        if r.fermat_path != fp:
+            out.append(("violate", f"path {k}: attached rays belong to another path"))
+        if fortran and not (r.times.flags.f_contiguous and r.indices.flags.f_contiguous):
+            out.append(("violate", f"path {k}: Fortran order requested, arrays are not Fortran-contiguous"))
+    return out
+
+
 def emit(ctx, outs, case_json, tags=None):
     for kind, what in outs:
         if kind == "violate":
@@ -392,6 +465,15 @@ def run(ctx):
         ctx.count("sandwich")
         emit(ctx, check_sandwich(ctx, sc), {"op": "sandwich", "src": sc[0].tolist(), "dst": sc[2].tolist(),
                                             "walls": [w.tolist() for w in sc[1]], "vs": sc[3], "zs": sc[4].tolist()})
+    # public entry points on Path objects (duplicates, equal problems, permutations; C and Fortran order; via views)
+    for k in range(40 * ctx.scale):
+        paths, kind = gen_path_group(rng)
+        fortran, via_views = bool(k % 2), bool((k // 2) % 2)
+        ctx.case(("pathapi", k, kind, len(paths)), True)
+        ctx.count(f"path_api_kind={kind}")
+        emit(ctx, check_path_api(ctx, paths, kind, fortran, via_views),
+             {"op": "path_api", "kind": kind, "fortran": fortran, "via_views": via_views, "stream_index": k,
+              "paths": [[[i.points.coords.tolist() for i in p_.interfaces], [m.key() for m in p_.modes]] for p_ in paths]})
     ctx.assumptions += [
         "IEEE-754: non-NaN doubles are linearly ordered and x -> fl(x + c) is monotone (transfers solve_optimal to doubles)",
         "velocities finite and positive, coordinates finite (no overflow to inf)",
